@@ -32,7 +32,7 @@ Inductive pname := NBase | NShard (k : N) | NClusterDAG | NOther.
 Record pin := mkpin { pcid : cid; pty : ptype; pnm : pname; pallocs : list N; pdepth : Z;
                       pref : option cid; prmin : Z; prmax : Z; pssize : N }.
 
-Inductive err := EAllocFail | EPutFail | EPinFail | ETooBig | ENilShard | EPanic | EFuel.
+Inductive err := EAllocFail | EPutFail | EPinFail | ETooBig | ENilShard | EPanic | EFuel | EImporter.
 Inductive result := ROk (root : cid) | RErr (e : err).
 
 Inductive event :=
@@ -246,14 +246,31 @@ Fixpoint add_all {S} (add : block -> S -> option err * S) (bs : list block) (st 
               end
   end.
 
+Definition shard_adds (e : env) (stream : list block) : option err * sst := add_all (shard_add e) stream sst0.
+Definition single_adds (e : env) (stream : list block) : option err * single_st :=
+  add_all (fun b => single_add e (bcid b)) stream (mksingle None [] io0).
+
 Definition shard_run (e : env) (stream : list block) (root : N) : result * list event :=
-  match add_all (shard_add e) stream sst0 with
+  match shard_adds e stream with
   | (Some er, st) => (RErr er, rev (tr (sio st)))
   | (None, st) => let '(r, st') := shard_finalize e root st in (r, rev (tr (sio st')))
   end.
 
 Definition single_run (e : env) (stream : list block) (root : N) : result * list event :=
-  match add_all (fun b => single_add e (bcid b)) stream (mksingle None [] io0) with
+  match single_adds e stream with
   | (Some er, st) => (RErr er, rev (tr (sd_io st)))
   | (None, st) => let '(r, st') := single_finalize e root st in (r, rev (tr (sd_io st')))
+  end.
+
+(* the importer gave up by itself after its last Add (an error of its own, or one it had kept for later):
+   FromFiles returns that error and Finalize is never called *)
+Definition shard_run_aborted (e : env) (stream : list block) : result * list event :=
+  match shard_adds e stream with
+  | (Some er, st) => (RErr er, rev (tr (sio st)))
+  | (None, st) => (RErr EImporter, rev (tr (sio st)))
+  end.
+Definition single_run_aborted (e : env) (stream : list block) : result * list event :=
+  match single_adds e stream with
+  | (Some er, st) => (RErr er, rev (tr (sd_io st)))
+  | (None, st) => (RErr EImporter, rev (tr (sd_io st)))
   end.
